@@ -62,6 +62,7 @@ func LintFile(ctx context.Context, ps PackageSrc, filename string, fileData stri
 			}
 
 			for _, desc := range descs {
+				qualifyTypeNames(desc)
 				sr := &SearchResult{
 					Summary: srcFile.Summary,
 					Desc:    desc,
